@@ -154,4 +154,19 @@ theorem fireOne_eq_spec (sc : Scripts) (w : World) (cop : Entry) : fireOne sc w 
   rw [tie_dropCond]
   cases cop.c.fp <;> cases isDead w cop.c.owner <;> rfl
 
+/-! ### ownership tests (round 5) -/
+
+/-- remove_call_out / find_call_out: `cop->ob == ob && strcmp (cop->function.s, fun) == 0` (both copies agree) -/
+theorem tie_byNameCond (a b : Bool) : Gen.C10.byNameCond a b = (a && b) := rfl
+
+/-- remove_all_call_out: with `ob` = 0 exactly for function pointers, the nested test is "owner is obj or destructed",
+    for string call_outs through `ob`, for function pointers through `function.f->hdr.owner` -/
+theorem tie_removeAllCond (fp a d : Bool) :
+    Gen.C10.removeAllCond (!fp) (!fp && a) (!fp && d) (fp && a) (fp && d) = (a || d) := by
+  cases fp <;> cases a <;> cases d <;> rfl
+
+theorem removeAll_eq_spec (w : World) (owner : Nat) : removeAll w owner = removeAllSpec w owner := by
+  unfold removeAll removeAllSpec
+  simp only [tie_removeAllCond]
+
 end NV.C10
